@@ -13,6 +13,8 @@ PURPOSE. */
 #ifndef PPL_Pending_List_types_hh
 #define PPL_Pending_List_types_hh 1
 
+#include "verif_hooks.hh"
+
 namespace Parma_Polyhedra_Library {
 
 namespace Implementation {
